@@ -22,7 +22,7 @@ RULE = ("one evaluation = one step of one operation history (len, get field, t[s
 BUDGET = {"quick": (5000, 40), "thorough": (80000, 900)}
 
 FORMAT_WEIGHTS = [(3, "bed3"), (3, "bed6"), (2, "narrowpeak"), (2, "bdg"), (3, "fastq"), (2, "fasta2"), (2, "vcf"),
-                  (2, "sam"), (2, "bed12"), (2, "vcfinfo")]
+                  (2, "sam"), (2, "bed12"), (2, "vcfinfo"), (2, "vcfgt")]
 
 
 BAM_FIELDS = ["chromosome", "name", "flag", "position", "mapq", "cigar_op", "cigar_length", "sequence", "quality"]
